@@ -233,6 +233,90 @@ theorem readTagHeader_stop_exact (parent : Tag) (st : St) (ws : Bytes) (n0 : UIn
   rw [e, ← hl, List.drop_left]
 
 
+/-- a window that holds the whole value and the '<' behind it -/
+theorem elem_value_hit (f sz j : Nat) (st : St) (c : UInt8) (v' t' : Bytes)
+    (hv : ∀ x ∈ c :: v', (x == 60) = false) (hc : isWs c = false) (hsz : sz ≤ W) (hfit : (c :: v').length < sz) (hj : j ≤ (c :: v').length)
+    (hr : st.rest = (c :: v') ++ 60 :: t') (h4 : 4 < st.rest.length) :
+    readTagValue (f + 1) sz 0 j st = (.ok (c :: v'), { st with rest := 60 :: t' }) := by
+  unfold readTagValue
+  rw [bindOk _ _ _ _ _ (peek_take sz st hsz h4)]
+  have hb : st.rest.take sz = (c :: v') ++ 60 :: (t'.take (sz - (c :: v').length - 1)) := by
+    rw [hr, List.take_append, List.take_of_length_le (by omega)]
+    have : sz - (c :: v').length = (sz - (c :: v').length - 1) + 1 := by omega
+    rw [this, List.take_succ_cons]
+    simp
+  rw [hb]
+  have hi0 : idxFrom (fun b => !isWs b) ((c :: v') ++ 60 :: (t'.take (sz - (c :: v').length - 1))) 0 = 0 := by
+    unfold idxFrom; simp [List.findIdx_cons, hc]
+  have hk : ∀ j', j' ≤ (c :: v').length → idxFrom (fun x => x == 60) ((c :: v') ++ 60 :: (t'.take (sz - (c :: v').length - 1))) j' = (c :: v').length :=
+    fun j' hj' => idxFrom_found _ (c :: v') _ 60 j' hj' (fun x hx => hv x (List.mem_of_mem_drop hx)) rfl
+  have hfin : ∀ (ij : Nat × Nat), ij.1 = 0 → ij.2 ≤ (c :: v').length →
+      (let k := idxFrom (fun x => x == 60) ((c :: v') ++ 60 :: (t'.take (sz - (c :: v').length - 1))) ij.2
+       if k < ((c :: v') ++ 60 :: (t'.take (sz - (c :: v').length - 1))).length then
+         (discard k >>= fun _ => pure ((((c :: v') ++ 60 :: (t'.take (sz - (c :: v').length - 1))).drop ij.1).take (k - ij.1)) : M Bytes)
+       else readTagValue f (sz + 512) ij.1 (max ij.2 ((c :: v') ++ 60 :: (t'.take (sz - (c :: v').length - 1))).length)) st =
+      (.ok (c :: v'), { st with rest := 60 :: t' }) := by
+    intro ij h1 h2
+    simp only [hk ij.2 h2, h1]
+    rw [if_pos (by simp)]
+    simp only [List.drop_zero, Nat.sub_zero, List.take_left']
+    show (discard (c :: v').length >>= fun _ => pure (c :: v')) st = _
+    simp only [discard, bind, pure]
+    congr 2
+    rw [hr, List.drop_left]
+  by_cases h0 : (0 == j) = true
+  · have hj0 : j = 0 := by simpa using (by simpa using h0 : 0 = j).symm
+    subst hj0
+    simp only [beq_self_eq_true, if_true, hi0]
+    exact hfin (0, 0) rfl (Nat.zero_le _)
+  · simp only [h0, Bool.false_eq_true, if_false]
+    exact hfin (0, j) rfl hj
+
+/-- a window that ends inside the value: the next one is tried, the search position remembered, nothing consumed -/
+theorem elem_value_miss (f sz j : Nat) (st : St) (c : UInt8) (v' t' : Bytes)
+    (hv : ∀ x ∈ c :: v', (x == 60) = false) (hc : isWs c = false) (hsz : sz ≤ W) (hsz0 : 0 < sz) (hmiss : sz ≤ (c :: v').length) (hj : j ≤ sz)
+    (hr : st.rest = (c :: v') ++ 60 :: t') :
+    readTagValue (f + 1) sz 0 j st = readTagValue f (sz + 512) 0 sz st := by
+  have h4 : 4 < st.rest.length ∨ st.rest.length ≤ 4 := by omega
+  have hL : st.rest.length = (c :: v').length + 1 + t'.length := by rw [hr]; simp; omega
+  conv => lhs; unfold readTagValue
+  have hpk : peek sz st = (.ok (st.rest.take sz), st) := by
+    unfold peek
+    rw [if_neg (by omega), if_neg (by omega)]
+  rw [bindOk _ _ _ _ _ hpk]
+  have hb : st.rest.take sz = (c :: v').take sz := by
+    rw [hr, List.take_append_of_le_length hmiss]
+  rw [hb]
+  have hlen : ((c :: v').take sz).length = sz := by rw [List.length_take]; omega
+  have hnone : ∀ j', ((c :: v').take sz).length ≤ idxFrom (fun x => x == 60) ((c :: v').take sz) j' :=
+    fun j' => idxFrom_none _ _ j' (fun x hx => hv x (List.mem_of_mem_take hx))
+  have hi0 : idxFrom (fun b => !isWs b) ((c :: v').take sz) 0 = 0 := by
+    obtain ⟨s', rfl⟩ : ∃ s', sz = s' + 1 := ⟨sz - 1, by omega⟩
+    unfold idxFrom; simp [List.findIdx_cons, hc]
+  by_cases h0 : (0 == j) = true
+  · have hj0 : j = 0 := by simpa using (by simpa using h0 : 0 = j).symm
+    subst hj0
+    simp only [beq_self_eq_true, if_true, hi0]
+    rw [if_neg (by have := hnone 0; omega)]
+    rw [hlen]; simp
+  · simp only [h0, Bool.false_eq_true, if_false]
+    rw [if_neg (by have := hnone j; omega)]
+    rw [hlen, Nat.max_eq_right hj]
+
+/-- **An element value of any length up to 1535 bytes is returned exactly**, whichever of the three windows it ends in -/
+theorem readTagValue_any (st : St) (c : UInt8) (v' t' : Bytes)
+    (hv : ∀ x ∈ c :: v', (x == 60) = false) (hc : isWs c = false) (hlen : (c :: v').length < 1536)
+    (hr : st.rest = (c :: v') ++ 60 :: t') (h4 : 4 < st.rest.length) :
+    readTagValue 8 512 0 0 st = (.ok (c :: v'), { st with rest := 60 :: t' }) := by
+  by_cases h1 : (c :: v').length < 512
+  · exact elem_value_hit 7 512 0 st c v' t' hv hc (by unfold W; omega) h1 (Nat.zero_le _) hr h4
+  · rw [elem_value_miss 7 512 0 st c v' t' hv hc (by unfold W; omega) (by omega) (by omega) (by omega) hr]
+    by_cases h2 : (c :: v').length < 1024
+    · exact elem_value_hit 6 1024 512 st c v' t' hv hc (by unfold W; omega) h2 (by omega) hr h4
+    · rw [elem_value_miss 6 1024 512 st c v' t' hv hc (by unfold W; omega) (by omega) (by omega) (by omega) hr]
+      exact elem_value_hit 5 1536 1024 st c v' t' hv hc (by unfold W; omega) hlen (by omega) hr h4
+
+
 theorem bind_assoc3 {α β γ} (m : M α) (g : α → M β) (h : β → M γ) : (m >>= g) >>= h = m >>= fun a => g a >>= h := by
   funext st
   show (match (match m st with | (.ok a, st') => g a st' | (.error e, st') => (.error e, st')) with
@@ -263,7 +347,7 @@ def Elem.bytes (e : Elem) : Bytes := 60 :: ((e.n0 :: e.ns) ++ 58 :: (e.name ++ 6
 
 /-- what the theorem asks of an element: a prefix without ':' that does not start with '/' or '?', a local name without
 '>', '/' or white space, both short enough for the 128-byte look-ahead; a value without '<' that does not start with white
-space (leading white space is not part of an element's value) and fits the first 512-byte window; a property that is
+space (leading white space is not part of an element's value) and is shorter than 1536 bytes (it may end in any of the three look-ahead windows); a property that is
 neither an array nor the root -/
 structure Elem.OK (e : Elem) : Prop where
   h0 : e.n0 ≠ 47 ∧ e.n0 ≠ 63
@@ -272,7 +356,7 @@ structure Elem.OK (e : Elem) : Prop where
   hfit : e.ns.length + e.name.length + 5 ≤ 128
   hc : isWs e.c = false
   hv : ∀ x ∈ e.v, (x == 60) = false
-  hvwin : e.v.length + 1 ≤ 512
+  hvwin : e.v.length < 1536
   hseq : (e.prop == rdfSeq || e.prop == rdfAlt || e.prop == rdfBag) = false
   hroot : (e.prop == rootProp) = false
 
@@ -316,21 +400,14 @@ theorem readTag_element_exact (parent : Tag) (st : St) (ws : Bytes) (e : Elem) (
   unfold Elem.prop at hseq
   simp only [beq_self_eq_true, if_true, hseq, Bool.false_eq_true, if_false]
   -- the value
-  have hpk : peek 512 { st with a := false, rest := e.v ++ e.close ++ R } =
-      (.ok (e.v ++ [60] ++ ((47 :: ((e.n0 :: e.ns) ++ 58 :: (e.name ++ [62])) ++ R).take (512 - e.v.length - 1))), { st with a := false, rest := e.v ++ e.close ++ R }) := by
-    rw [peek_take 512 _ (by unfold W; omega) (by simp [Elem.close, Elem.v]; omega)]
-    congr 2
-    show (e.v ++ e.close ++ R).take 512 = _
-    have hvw := ok.hvwin
-    have e1 : (e.v ++ e.close ++ R : Bytes) = (e.v ++ [60]) ++ (47 :: ((e.n0 :: e.ns) ++ 58 :: (e.name ++ [62])) ++ R) := by simp [Elem.close]
-    rw [e1, List.take_append, List.take_of_length_le (by simp; omega)]
-    have hn : 512 - (e.v ++ [60] : Bytes).length = 512 - e.v.length - 1 := by simp; omega
-    rw [hn]
-  rw [bind_assoc3, bindOk _ _ _ _ _ (elem_value_exact 7 512 _ e.v _ e.c e.v' rfl ok.hv ok.hc hpk)]
-  dsimp only
-  have hd : (e.v ++ e.close ++ R : Bytes).drop e.v.length = e.close ++ R := by
-    rw [List.append_assoc, List.drop_left]
-  rw [hd, bind_assoc3]
+  have hrv : ({ st with a := false, rest := e.v ++ e.close ++ R } : St).rest = (e.c :: e.v') ++ 60 :: ((47 :: ((e.n0 :: e.ns) ++ 58 :: (e.name ++ [62]))) ++ R) := by
+    simp [Elem.v, Elem.close]
+  rw [bind_assoc3, bindOk _ _ _ _ _ (readTagValue_any _ e.c e.v' _ ok.hv ok.hc ok.hvwin hrv (by simp [Elem.close, Elem.v]; omega))]
+  have hcl : (60 :: ((47 :: ((e.n0 :: e.ns) ++ 58 :: (e.name ++ [62]))) ++ R) : Bytes) = e.close ++ R := rfl
+  rw [hcl]
+  show ((emit { pt := 2, parent := parent.self, self := identify (e.n0 :: e.ns) e.name, val := e.v } >>= fun _ =>
+      readTag (f + 1) { t := .start, parent := parent.self, self := identify (e.n0 :: e.ns) e.name }) >>= _) { rest := e.close ++ R, a := false, toks := st.toks } = _
+  rw [bind_assoc3]
   have hemit : emit { pt := 2, parent := parent.self, self := identify (e.n0 :: e.ns) e.name, val := e.v }
       { rest := e.close ++ R, a := false, toks := st.toks } =
       (.ok (), { rest := e.close ++ R, a := false, toks := { pt := 2, parent := parent.self, self := identify (e.n0 :: e.ns) e.name, val := e.v } :: st.toks }) := by
